@@ -83,7 +83,8 @@ let run_case2 op t =
       let (cw, ci) = wdi_ctor_m c idx in
       let m = okl (zs [ c; weekday_iso_m c ] @ bs [ weekday_ok_m c ] @ zs [ cw; ci ] @ bs [ wdi_ok_m cw ci ] @ zs [ c ] @ bs [ wdl_ok_m c ]) in
       let sc_ = if zeq w (zi 7) then zi 0 else w in
-      let p = okl (zs [ sc_; (if zeq sc_ (zi 0) then zi 7 else sc_) ] @ bs [ weekday_ok_spec sc_ ] @ zs [ sc_; idx ]
+      let p = if not (in_u8 idx) then "na" (* the index held is unspecified outside the stored range *) else
+               okl (zs [ sc_; (if zeq sc_ (zi 0) then zi 7 else sc_) ] @ bs [ weekday_ok_spec sc_ ] @ zs [ sc_; idx ]
                    @ bs [ wdi_ok_spec sc_ idx ] @ zs [ sc_ ] @ bs [ weekday_ok_spec sc_ ]) in
       (m, p)
   | "md_ok" ->
@@ -168,6 +169,10 @@ let run_case2 op t =
       let r = rz (ymd_to_days_m y m d) in
       let s = zsub (zadd (days_spec y m (zi 1)) d) (zi 1) in
       (leg [ r; r ], if in_yr y && month_ok_spec m then okl (zs [ s; s ]) else "na")
+  | "civil_any" -> let z = next_z t in (opt3 (civil_from_days_m z), "na")
+  | "days_raw" ->
+      let y = next_z t in let m = next_z t in let d = next_z t in
+      (leg [ rz (ymd_to_days_m y m d) ], "na")
   | "eq_all" ->
       let rd () = let a = next_z t in let b = next_z t in let c = next_z t in let d = next_z t in (a, b, c, weekday_ctor_m c, d) in
       let (y1, m1, d1, w1, i1) = rd () in
@@ -186,6 +191,12 @@ let run_case2 op t =
         pr (e [ m1; w1; i1 ] [ m2; w2; i2 ]); pr (e [ m1; w1 ] [ m2; w2 ]); pr (e [ y1; m1; w1; i1 ] [ y2; m2; w2; i2 ]);
         pr (e [ y1; m1; w1 ] [ y2; m2; w2 ]) ]) in
       (ml, p)
+  | "constants" ->
+      let l = List.init 12 (fun i -> zi (i + 1)) @ List.init 7 (fun i -> weekday_ctor_m (zi i))
+              @ [ year_ctor_m (zi (-32767)); year_ctor_m (zi 32767); year_ctor_m (zi 2024) ] in
+      let d31 = rz (day_ctor_m (zi 31)) in
+      let s = okl (zs l @ d31 @ zs [ year_ctor_m (zi 40000) ]) in
+      (s, "na")
   | "slash" ->
       let y = next_z t in let m = next_z t in let d = next_z t in
       let c = year_ctor_m y in
